@@ -470,15 +470,30 @@ def oracle_inventory(case, by, cells, shifts, flux=None, kstep=1, hist=None, sta
     return bad
 
 
-def classify_conservation(bad, kind):
-    """(kind, detail): a drift above 1e-9 that stays within (speciations between the two states) x 5e-12 relative is the
-    known finding `speciation-residual-accumulates` (the engine stores the species sums of every speciation); anything
-    beyond that band is a violation"""
-    if all(abs(x[4]) <= x[5] * RESIDUAL_PER_SPECIATION for x in bad):
-        for x in bad:
+RESIDUAL_ABS_PER_CELL_SPECIATION = 1e-16   # mol: absolute floor of the residual a speciation leaves (dilute elements)
+
+
+def classify_conservation(bad, kind, ncells=1):
+    """(kind, detail): a drift above 1e-9 that stays within (speciations per cell between the two states) x
+    max(5e-12 relative, cells x 1e-16 mol absolute) is the known finding `speciation-residual-accumulates` (the engine
+    stores the species sums of every speciation; for dilute elements the residual is an absolute floor); anything
+    beyond that band is a violation. Entries: (name, t, expected, got, relative drift, K)."""
+    parts = []
+    for x in bad:
+        if abs(x[4]) <= x[5] * RESIDUAL_PER_SPECIATION:
+            parts.append("relative")
+        elif abs(x[3] - x[2]) <= x[5] * ncells * RESIDUAL_ABS_PER_CELL_SPECIATION:
+            parts.append("absolute")
+        else:
+            parts.append(None)
+    if all(parts):
+        for x, part in zip(bad, parts):
             BAND["stretches_over_1e-9_within_band"] += 1
+            BAND["in_" + part + "_part"] = BAND.get("in_" + part + "_part", 0) + 1
             BAND["max_drift"] = max(BAND["max_drift"], abs(x[4]))
             BAND["max_drift_per_speciation"] = max(BAND["max_drift_per_speciation"], abs(x[4]) / x[5])
+            BAND["max_abs_drift_per_cell_speciation_mol"] = max(BAND.get("max_abs_drift_per_cell_speciation_mol", 0.0),
+                                                                abs(x[3] - x[2]) / (x[5] * ncells))
             BAND["max_speciations"] = max(BAND["max_speciations"], x[5])
             b = "<=300" if x[5] <= 300 else "301-600" if x[5] <= 600 else "601-1200" if x[5] <= 1200 else ">1200"
             BAND["by_speciations"][b] = BAND["by_speciations"].get(b, 0) + 1
@@ -528,7 +543,7 @@ def direct_oracles(case, res, hist, code_nmix, plan=None):
             if bad is not None:
                 hist["oracle_flux_balance_advection_solids"] += 1
                 if bad:
-                    out.append(classify_conservation(bad, "oracle-flux-balance"))
+                    out.append(classify_conservation(bad, "oracle-flux-balance", n))
             bad = oracle_final_state(case, res, by, hist)
             if bad:
                 out.append(("oracle-final-state", bad[:3]))
@@ -568,7 +583,7 @@ def direct_oracles(case, res, hist, code_nmix, plan=None):
                 if case.get("implicit") and small:
                     out.append(("finding:implicit-mcd-closed-inventory-drift", bad[:3]))
                 else:
-                    out.append(classify_conservation(bad, "oracle-inventory"))
+                    out.append(classify_conservation(bad, "oracle-inventory", len(cells)))
     # (2b) constant-concentration boundary, diffusion only, one sub-mix per step: the inventory changes exactly by the
     #      exchange with the boundary solutions, computed from the code's own mixing map (constant_boundary_mix_balance):
     #      inv(t) = inv(t-1) + m[1]*(c0 - c1(t-1)) + m1[n]*(c_{n+1} - c_n(t-1))
@@ -594,7 +609,7 @@ def direct_oracles(case, res, hist, code_nmix, plan=None):
                         break
             hist["oracle_constant_boundary_balance"] += 1
             if bad:
-                out.append(classify_conservation(bad, "oracle-boundary-balance"))
+                out.append(classify_conservation(bad, "oracle-boundary-balance", n))
     # (3) pure advection: exact shift
     if plain and su["flow"] != 0 and code_nmix == 0:
         bad = oracle_shift(by, n, su["flow"], shifts, allq)
@@ -611,7 +626,7 @@ def direct_oracles(case, res, hist, code_nmix, plan=None):
                 mixed_zero = 0 in ds and len(ds) > 1
                 hist["oracle_flux_balance" + ("_mixed_zero_disp" if mixed_zero else "")] += 1
                 if bad:
-                    out.append(classify_conservation(bad, "oracle-flux-balance"))
+                    out.append(classify_conservation(bad, "oracle-flux-balance", len(cells)))
     if case.get("solids"):
         bad = oracle_final_state(case, res, by, hist)
         if bad:
@@ -1118,7 +1133,7 @@ RULE = ("columns from tools/gens/transport.py: 1-40 cells, one/equal/unequal/sho
         "vs model, every cell/step/quantity vs transportRun, direct oracles (incl. convexity of the code's own mixing map); "
         "on a non-convex map or a broken nmix/weight tie a targeted contrast search looks for a range violation. Variants (multi_d, implicit, stagnant, exchange, "
         "calcite): direct oracles only. Every conservation stretch is judged at 1e-9; a drift above it but within (speciations per cell "
-        "between the two states) x 5e-12 is the known finding speciation-residual-accumulates (counts in speciation_residual_band). "
+        "between the two states) x max(5e-12 relative, cells x 1e-16 mol) is the known finding speciation-residual-accumulates (counts in speciation_residual_band). "
         "Generated plain runs are limited to 1200 (closed diffusion-only: 600) speciations per cell (shifts x (nmix+1)): the engine stores the "
         "species sums of every speciation, ~1e-13 relative residual each. distinct_nontrivial = cases in which at least one sub-mix or shift changed the column.")
 
@@ -1173,7 +1188,8 @@ def run(ctx):
     ctx.cov["traces_validated_against_impl"] = hist["cases"]
     ctx.cov["histogram"] = dict(sorted(hist.items()))
     ctx.cov["rule"] = RULE
-    ctx.cov["speciation_residual_band"] = dict(BAND, band="drift <= speciations x %g relative" % RESIDUAL_PER_SPECIATION)
+    ctx.cov["speciation_residual_band"] = dict(BAND, band="drift <= speciations per cell x max(%g relative, cells x %g mol absolute)"
+                                                % (RESIDUAL_PER_SPECIATION, RESIDUAL_ABS_PER_CELL_SPECIATION))
     ctx.cov["tolerances"] = {"mixing factors (relative)": MIXTOL, "cell values / inventories (relative to column scale)": TOL}
     if not ok and not ctx.violations:
         ctx.violation("proof obligation of C11 no longer checks and no failing input was found",
